@@ -8,7 +8,7 @@ from concurrent.futures import ThreadPoolExecutor
 
 VERIF = os.path.dirname(os.path.abspath(__file__))
 pid, repo = sys.argv[1], sys.argv[2]
-BIN = os.path.join(VERIF, "bin", "goatverif")
+BIN = os.environ.get("GOATVERIF_BIN") or os.path.join(VERIF, "bin", "goatverif")
 
 def corpus():
     out = []
